@@ -123,7 +123,7 @@ theorem colon_token (st : St) (f : Fast) (l : Bool) (hm : st.mode = .token) (hs 
 /-- the end of the input after the one document has been delivered -/
 theorem finish_space (st : St) (p : Pos) (hm : st.mode = .space) (hs : st.starts = []) :
     finish refTables {} st p =
-      .ok { docs := st.docs.reverse, evs := st.evs.reverse, feat := st.feat, plus := st.plus, lastStrKey := st.lastStrKey } := by
+      .ok { docs := st.docs.reverse, evs := st.evs.reverse, feat := st.feat, plus := st.plus, lastStrKey := st.lastStrKey, lastKey := st.lastKey } := by
   simp [finish, hm, hs, refTables, expectedFin]
 
 /-- a document whose bytes the machine passes one by one, ending in `space` mode with one document -/
@@ -132,7 +132,7 @@ theorem parsesTo_of_run (doc : Bytes) (v : JV) (b0 : UInt8) (t : Bytes) (hdoc : 
     parsesTo doc v := by
   obtain ⟨st, f, p, hr, hm, hs, hd⟩ := h
   have ho := finish_space st p hm hs
-  refine ⟨{ docs := st.docs.reverse, evs := st.evs.reverse, feat := st.feat, plus := st.plus, lastStrKey := st.lastStrKey },
+  refine ⟨{ docs := st.docs.reverse, evs := st.evs.reverse, feat := st.feat, plus := st.plus, lastStrKey := st.lastStrKey, lastKey := st.lastKey },
     ?_, show st.docs.reverse = [v] by rw [hd]; rfl⟩
   rw [run_eq_ref senTables_ok]
   have hbom : Json.bomRule doc = .keep := by
